@@ -369,11 +369,76 @@ Definition P_periodic (sc : script) (ob : obs) : bool :=
   && name_ok ob
   && early_calls_ok sc o && dup_codes_ok sc o.
 
+(* --- the job table after the job's goroutine has ended, by whatever way out -----------------------
+   "a finished job's name can be scheduled again", "an early-run request that reports success means the
+   job runs": once the goroutine of the job has ended -- the parent context was cancelled (while it
+   waited OR while jobFunc was in flight), CancelJob returned nil, runtimeFunc had no further instance
+   (ErrNoMoreInstances or an error of its own), a one-off job was started -- the name refers to no job:
+   JobExists is false, RunJob / CancelJob find no such job (a run request must not report success:
+   nobody would run the job), a ScheduleJob of the name is accepted.  All of it is decided on the script and the observation:
+   [gone_before t] = the observation shows that the goroutine had ended before instant [t]. *)
+Definition is_dup (c : call) : bool := ckind_eqb (cl_kind c) KDup.
+
+(* every execution of jobFunc that was observed had returned before instant t *)
+Definition idle_before (sc : script) (o : outcome) (t : N) : bool :=
+  forallb (fun s => s + sc_dur sc <? t) (o_starts o).
+
+Definition gone_before (sc : script) (ob : obs) (t : N) : bool :=
+  let o := ob_out ob in
+  (0 <? t) && idle_before sc o t
+  && (existsb (fun tx => tx <? t) (times_of sc o KCtx (fun _ => true))
+      || existsb (fun tc => tc <? t) (times_of sc o KCancel ret_nil)
+      || match sc_kind sc with
+         | OneOff => (sc_due sc <? t) || existsb (fun tr => tr <? t) (times_of sc o KRun ret_nil)
+         | Periodic => (len (ob_insts ob) =? sc_ticks sc) && forallb (fun L => L + sc_dur sc <? t) (ob_insts ob)
+         end).
+
+(* no other ScheduleJob of the name was issued up to the instant of call c (such a job, if accepted,
+   holds the name; the harness never generates that) *)
+Definition no_other_dup (sc : script) (c : call) : bool :=
+  len (filter (fun d => is_dup d && (cl_at d <=? cl_at c)) (sc_calls sc)) <=? (if is_dup c then 1 else 0).
+
+Definition after_exit_ok (sc : script) (ob : obs) : bool :=
+  let o := ob_out ob in
+  ob_hung ob
+  || ((* at the end of the script *)
+      (gone_before sc ob (sc_end sc) && negb (has_kind sc KDup)) ==> negb (o_exists o))
+     && forallb (fun cs =>
+                   let '(c, s) := cs in
+                   (gone_before sc ob (cl_at c) && no_other_dup sc c) ==>
+                     match cl_kind c with
+                     | KRun | KCancel =>   (* "no such job" (or silent, or an error that is none of the
+                                              scheduler's: [Hung] + [ob_foreign]); ErrJobRunning / ErrJobFinalised
+                                              would speak of a job that is no longer there *)
+                         cst_eqb s (Ret ErrNoSuchJob) || cst_eqb s Silent || is_hung s
+                     | KExists => cst_eqb s (RetB false)
+                     | KDup => cst_eqb s (Ret Nil)
+                     | KCtx => true
+                     end)
+                (combine (sc_calls sc) (o_calls o)).
+
+(* periodic: a run request that reported success starts the job at that instant, when nothing cancels
+   the job or its context up to then and runtimeFunc hands out a further instance at or after it (a
+   request tied with the LAST instance may be answered nil and then dropped: noted, not condemned) *)
+Definition run_success_starts (sc : script) (ob : obs) : bool :=
+  let o := ob_out ob in
+  ob_hung ob || (sc_due sc =? 0)
+  || forallb (fun tr =>
+                (forallb (fun tx => tr <? tx) (times_of sc o KCtx (fun _ => true) ++ times_of sc o KCancel maybe_nil)
+                 && existsb (fun L => tr + sc_due sc <=? L) (ob_insts ob))
+                  ==> existsb (N.eqb tr) (o_starts o))
+             (times_of sc o KRun ret_nil).
+
 (* "a finished job's name can be scheduled again": the job accepted under the name IS scheduled --
    it is in the table (visible to JobExists, RunJob, CancelJob and to the duplicate check) as long as
    nothing claims it *)
 Definition P_timed (sc : script) (ob : obs) : bool :=
   dup_ok ob && match sc_kind sc with OneOff => P_oneoff sc ob | Periodic => P_periodic sc ob end.
+
+(* in a bubble (instants are exact there): also the clauses about the table after the goroutine's end *)
+Definition P_timed_exact (sc : script) (ob : obs) : bool :=
+  P_timed sc ob && after_exit_ok sc ob
+  && match sc_kind sc with OneOff => true | Periodic => run_success_starts sc ob end.
 
 (* the table of names, as a specification over the set of live names: [live] maps a name to the
    (id, periodic?) of the accepted job that holds it *)
@@ -509,8 +574,9 @@ Definition P_burst (b : burst) (o : bobs) : bool :=
 
 Definition P_b (c : case) : bool :=
   match c_body c with
-  | Timed sc os => forallb (P_timed sc) os
-  | Real sc os => existsb (P_timed sc) os   (* counts when every serial repetition shows it *)
+  | Timed sc os => forallb (P_timed_exact sc) os
+  | Real sc os => existsb (P_timed sc) os   (* counts when every serial repetition shows it; instants read
+                                               back from real time are not exact: no [after_exit_ok] *)
   | Burst b os => forallb (P_burst b) os
   | Tabled ops outs runs _ => tspec [] 0 [] ops outs runs
   | Skeleton _ _ => true      (* no clause of the property speaks of the source text *)
